@@ -49,6 +49,14 @@ Tie: quick 600 generated + 9 corpus cases (Graph.sort 63%, Function.sort 18%, pa
   also rerun in-process with another allocation order, the first 250 rerun in subprocesses under
   PYTHONHASHSEED=1 and 4242 with shifted allocation orders; thorough: 12000 cases, all rerun under 6
   hash seeds (2 random).  Measured: quick 9 s, thorough 88 s.
+Histories (added after seeded change r3m2 — a cached "already sorted" flag on Graph cleared only when a node
+  is added — went undetected by single-sort cases): 35% of the generated cases carry case["history"]: after
+  the first sort, 1-2 phases of edits that add no node (replace_input_with incl. inside nested bodies and
+  cycle-creating, replace_all_uses_with, remove+append, insert_before of a present node), each followed by
+  another sort.  Every later sort is compared (model in Coq + oracle) with the structure and the order current
+  at that moment (derived_case) — the content of C12_deterministic: no dependence on the object's history.
+  Quick: ~260 later sorts per run.  r3m2 now: VIOLATION with a shrunk replay (sort; rewire in the nested body;
+  sort -> "node 1 is not after producer 3").
 Modelled, not verified: heapq (contract only), DoublyLinkedSet internals (C11), node.graph bookkeeping
   and name authority (C01), dict/set iteration order (independent per-graph relinking).
 Finding, fixed in /repo by 86f4e6a (known_findings.d/C12.json, status "fixed"): a GRAPH/GRAPHS-typed
@@ -960,7 +968,7 @@ def run(ck) -> None:
             ck.known_finding(key, next(k["what"] for k in ck._known if k["key"] == key))
             continue
         import re
-        sig = re.sub(r"[\d\[\], >-]+", "#", bad[0])[:60]
+        sig = re.sub(r"[\d\[\], >-]+", "#", re.sub(r"^sort #\d+ of the history \(after edits .*?\)\): ", "later sort: ", bad[0]))[:60]
         if sig in reported:
             continue
         reported.add(sig)
